@@ -397,9 +397,13 @@ class TransactionManager(Elaboratable):
         simultaneous = set[frozenset[TBody]]()
 
         all_simultaneous = set[TBody]()
+        never_running = set[TBody]()
         for elem in method_map.methods_and_transactions:
             for sim_elem in elem.simultaneous_list:
                 all_simultaneous.update(method_map.transactions_for(sim_elem))
+                if not method_map.transactions_for(sim_elem):
+                    # sim_elem is an uncalled method, so it never runs - and neither can anything simultaneous with it
+                    never_running.update(method_map.transactions_for(elem))
 
         for elem in method_map.methods_and_transactions:
             for sim_elem in elem.simultaneous_list:
@@ -432,7 +436,7 @@ class TransactionManager(Elaboratable):
         def maximal(group: frozenset[TBody]):
             return not any(group.issubset(group2) and group != group2 for group2 in tr_simultaneous)
 
-        final_simultaneous = set(filter(maximal, tr_simultaneous))
+        final_simultaneous = set(group for group in tr_simultaneous if maximal(group) and not group & never_running)
 
         # step 4: convert transactions to methods
         joined_transactions = set[TBody]().union(*final_simultaneous)
